@@ -7,6 +7,7 @@ pub mod c06;
 pub mod c10;
 pub mod c11;
 pub mod c12;
+pub mod c14;
 pub mod c15;
 pub mod c20;
 pub mod histprops;
